@@ -127,6 +127,8 @@ pub struct GenOpts {
     pub extra_pct: usize,
     pub big: bool,
     pub keep_conn_pct: usize,
+    /// no stray BeginRequest records inside preambles
+    pub no_begin_extras: bool,
 }
 
 /// An open-loop connection: 1..k requests; request i+1 is released only after EndRequest i.
@@ -156,7 +158,7 @@ pub fn gen_conn(rng: &mut Rng, o: &GenOpts) -> ConnCase {
             extra_pct_pre: o.extra_pct,
             extra_pct_stream: o.extra_pct,
             tag_base: (i as u8) & 1,
-            extras_pre: &gen::EXTRAS_PREAMBLE,
+            extras_pre: if o.no_begin_extras { &gen::EXTRAS_PREAMBLE_NO_BEGIN } else { &gen::EXTRAS_PREAMBLE },
             extras_stream: &[
                 gen::Extra::GetValues,
                 gen::Extra::GetValuesEmpty,
@@ -168,6 +170,7 @@ pub fn gen_conn(rng: &mut Rng, o: &GenOpts) -> ConnCase {
                 gen::Extra::OutOfRoleStream,
                 gen::Extra::GetValuesNonNull,
             ],
+            marker: Some(i as u8),
         };
         let b = gen::push_request(rng, &mut wire_bytes, &spec);
         scripts.push(handler::gen_script(rng, role, o.big));
